@@ -239,8 +239,101 @@ def check_renderer_order(run, f, cfg):
             if c["name"] in deny:
                 run.ob("C10.R4", "reorder:%s" % c["name"], False, "prepare_insert_statement calls .%s(): rows/cells would not be rendered in order/completely" % c["name"],
                        sp=c.get("sp"), cfg=cfg)
-    iters = [c for c in walk(fn["hir"]) if c.get("k") == "mcall" and c["name"] == "iter" and (H.place(c["recv"]) or "") in ("insert.columns", "values", "row")]
-    run.ob("C10.R4", "forward-iteration", len(iters) >= 3, "columns, rows and cells are iterated forward with iter() (%d sites), no reordering adaptor among %d calls" % (len(iters), n),
+    check_rows_whole(run, f, cfg, fn, n)
+
+
+ITER_ADAPT = ("iter", "into_iter", "enumerate", "as_slice", "as_ref", "deref", "as_deref", "by_ref")
+ITER_DRIVERS = ("fold", "for_each", "try_for_each", "try_fold", "map")
+
+
+def iterations(node):
+    """(iterated expression, names bound to the element, body) for every iteration construct inside node:
+    `X.iter().fold(init, |acc, el| ..)` / `.for_each(|el| ..)` and desugared `for el in X`"""
+    out = []
+    for n in walk(node):
+        if n.get("k") == "mcall" and n["name"] in ITER_DRIVERS:
+            clos = [a for a in n["args"] if isinstance(a, dict) and a.get("k") == "closure"]
+            if clos:
+                ps = clos[0].get("params") or []
+                if ps:
+                    names = [b["name"] for b in walk(ps[-1]["pat"]) if b.get("k") == "bind"]
+                    out.append((n["recv"], names, clos[0]["body"], ps[-1]["pat"]))
+        elif n.get("k") == "match" and "ForLoop" in n.get("src", ""):
+            it = (n["scrut"].get("args") or [None])[0] if n["scrut"].get("k") == "call" else n["scrut"]
+            for m in walk(n["arms"][0]["body"] if n.get("arms") else {}):
+                if m.get("k") == "match" and m is not n and any("Some" in ((a["pat"].get("path") or {}).get("def") or "") for a in m.get("arms") or []):
+                    for a in m["arms"]:
+                        if "Some" in ((a["pat"].get("path") or {}).get("def") or ""):
+                            subs = a["pat"].get("subs") or []
+                            names = [b["name"] for b in walk(subs[0])] if subs else []
+                            names = [b["name"] for b in walk(subs[0]) if b.get("k") == "bind"] if subs else []
+                            out.append((it, names, a["body"], subs[0] if subs else None))
+                    break
+    return out
+
+
+def base_local(e):
+    """local at the root of a chain of iterator / view adaptors"""
+    e = H.peel_ref(e) if isinstance(e, dict) else e
+    while isinstance(e, dict) and e.get("k") == "mcall" and e["name"] in ITER_ADAPT and not e["args"]:
+        e = H.peel_ref(e["recv"])
+    return e if isinstance(e, dict) and e.get("k") == "local" else None
+
+
+def check_rows_whole(run, f, cfg, fn, ncalls):
+    """Values arm of prepare_insert_statement: every row is rendered whole and every cell as itself - each renderer call
+    inside the rows loop takes the row (or a view of it) or the element of an iteration over the row, never a part
+    obtained by destructuring a row or a cell"""
+    arms = []
+    for m in walk(fn["hir"]):
+        if m.get("k") == "match" and m.get("src") == "Normal":
+            for a in m["arms"]:
+                pd = (a["pat"].get("path") or {}).get("def") or ""
+                if pd.endswith("InsertValueSource::Values"):
+                    binds = [b for b in walk(a["pat"]) if b.get("k") == "bind"]
+                    if len(binds) == 1:
+                        arms.append((binds[0], a))
+    if len(arms) != 1:
+        run.anchor("C10.R4", "values-arm", "the InsertValueSource::Values arm of prepare_insert_statement was not recognised (%d candidates)" % len(arms), cfg)
+        return
+    vb, arm = arms[0]
+    sinks = {p["pat"]["name"] for p in fn["params"] if p["pat"].get("k") == "bind" and "SqlWriter" in (f.ty(p.get("ty")) or "")}
+    its = iterations(arm["body"])
+    rows = [(it, names, body, pat) for it, names, body, pat in its if (base_local(it) or {}).get("id") == vb["id"]]
+    if len(rows) != 1 or len(rows[0][1]) != 1 or (rows[0][3] or {}).get("k") != "bind":
+        run.anchor("C10.R4", "rows-loop", "the iteration over the rows of the Values arm was not recognised (%d candidates)" % len(rows), cfg)
+        return
+    _, rnames, rbody, rpat = rows[0]
+    row_id = rpat["id"]
+    # locals that stand for one whole cell: elements of iterations over the row, bound by a plain name
+    cell_ids = set()
+    for it, names, body, pat in iterations(rbody):
+        b = base_local(it)
+        if b is not None and b.get("id") == row_id and isinstance(pat, dict) and pat.get("k") == "bind":
+            cell_ids.add(pat["id"])
+    n = 0
+    for c in walk(rbody):
+        if c.get("k") not in ("call", "mcall"):
+            continue
+        args = ([c["recv"]] if c.get("k") == "mcall" else []) + list(c.get("args") or [])
+        locs = [H.peel_ref(a) for a in args]
+        if not any(isinstance(a, dict) and a.get("k") == "local" and a.get("name") in sinks for a in locs):
+            continue
+        if c.get("k") == "mcall" and (c["name"] in ("write_fmt", "write_str", "unwrap", "as_writer") or H.place(c["recv"]) in sinks):
+            continue
+        n += 1
+        for a in args:
+            pa = H.peel_ref(a)
+            if isinstance(pa, dict) and pa.get("k") == "local" and (pa.get("name") in sinks or pa.get("name") == "self"):
+                continue
+            b = base_local(a)
+            ok = b is not None and (b.get("id") == row_id or b.get("id") in cell_ids)
+            run.ob("C10.R4", "row-data:%s:%s" % (c.get("name") or (c.get("callee") or "?").rsplit("::", 1)[-1], H.place(a) or "expr"), ok,
+                   "in the rows loop of prepare_insert_statement, %s is handed %s" % (
+                       c.get("name") or (c.get("callee") or "?").rsplit("::", 1)[-1],
+                       "the row / the cell itself" if ok else "`%s`, which is neither the row nor one whole cell of it: rows would be rendered with a different number of cells than the declared columns" % (H.place(a) or "an expression")),
+                   sp=c.get("sp"), cfg=cfg)
+    run.ob("C10.R4", "forward-iteration", n >= 1, "rows are iterated forward and every row is rendered from the row / its cells (%d renderer calls in the rows loop), no reordering adaptor among %d calls" % (n, ncalls),
            sp=fn["sp"], cfg=cfg)
 
 
